@@ -111,10 +111,14 @@ package main
 
 //@ func (*Epoch) GetBlock
 //@   ensures result2 == nil ==> result0 != nil
+//@   # C03 (K2): the block answered is the block of the requested slot
+//@   ensures result2 == nil ==> uint64(result0.Slot) == slot
 //@   noframe
 
 //@ func (*Epoch) GetTransaction
 //@   ensures result2 == nil ==> result0 != nil
+//@   # C03 (K3): the transaction answered carries the requested signature as its first signature
+//@   ensures result2 == nil ==> (*result0).Signature() == sig
 //@   noframe
 
 //@ func (*Epoch) GetEntryByCid
@@ -173,17 +177,27 @@ package main
 //@ func (*MultiEpoch) handleGetBlock
 //@   requires ctx != nil && conn != nil && conn.ctx != nil && req != nil
 //@   requires held(multi.mu) == 0 && validEpochSet(multi) && multi.options != nil
+//@   # C03 pass-through (weak): a reply without error was built after (*Epoch).GetBlock(.., slot) returned a block; `slot == params.Slot`
+//@   # and `blockResp from block` at the return are not provable: every heap is havoced by the errgroup.Go callbacks in between
+//@   ensures result0 == nil && result1 == nil ==> params != nil && block != nil
 //@   noframe
 
 //@ func (*MultiEpoch) handleGetTransaction
 //@   requires ctx != nil && conn != nil && conn.ctx != nil && req != nil
 //@   requires held(multi.mu) == 0 && validEpochSet(multi) && multi.options != nil
+//@   # C03 pass-through: a reply without error is built from the node (*Epoch).GetTransaction returned for the requested signature (K3)
+//@   ensures result0 == nil && result1 == nil ==> params != nil && sig == params.Signature
+//@   ensures result0 == nil && result1 == nil ==> transactionNode != nil && (*transactionNode).Signature() == sig
 //@   noframe
 
 //@ func (*MultiEpoch) handleGetSignaturesForAddress
 //@   requires ctx != nil && conn != nil && conn.ctx != nil && req != nil
 //@   requires held(multi.mu) == 0 && validEpochSet(multi) && multi.options != nil
 //@   noframe
+//@   # C07 (response order): response[numBefore ...] is filled block by block in the order the epochs of foundTransactions are
+//@   # visited, so the entries are listed newest epoch first iff every epoch visited so far is newer than every epoch still to
+//@   # come. Under the map-range model (arbitrary visiting order) this is NOT inductive: defect, see replay/manual/ct-c07.
+//@   loop 0 invariant forall a, b uint64 :: visited0(a) && has(foundTransactions, b) && !visited0(b) ==> a > b
 
 //@ func (*MultiEpoch) handleGetBlockTime
 //@   requires ctx != nil && conn != nil && conn.ctx != nil && req != nil
@@ -218,17 +232,45 @@ package main
 //@   ensures held(multi.mu) == 0
 //@   noframe
 
+//@ spec func inEpochSet(ser *MultiEpoch, e *Epoch) bool = exists q uint64 :: has(ser.epochs, q) && ser.epochs[q] == e
+//@ spec func readerOfSet(ser *MultiEpoch, r *gsfa.GsfaReader, n uint64) bool = exists q uint64 :: has(ser.epochs, q) && ser.epochs[q] != nil && ser.epochs[q].gsfaReader == r && ser.epochs[q].epoch == n
 //@ func (*MultiEpoch) getGsfaReadersInEpochDescendingOrder
 //@   requires held(ser.mu) == 0 && validEpochSet(ser)
 //@   ensures held(ser.mu) == 0
 //@   ensures len(result0) == len(result1)
 //@   noframe
+//@   option sort-members-fwd
+//@   # C07: readers newest epoch first (what iterBeforeUntil's "epochs in reader order" relies on), stated on the RESULT readers:
+//@   # result0[k] is the gsfa reader of a loaded epoch whose number is result1[k], and result1 is descending.
+//@   # (strictly descending additionally needs pairwise distinct Epoch.epoch values in the set: not an invariant AddEpoch establishes; not stated)
+//@   ensures forall i int :: 0 <= i && i < len(result0) ==> result0[i] != nil
+//@   ensures forall k int :: 0 <= k && k < len(result0) ==> readerOfSet(ser, result0[k], result1[k])
+//@   ensures forall i, j int :: 0 <= i && i < j && j < len(result1) ==> result1[i] >= result1[j]
+//@   loop 0 invariant forall a int :: 0 <= a && a < len(epochs) ==> epochs[a] != nil && inEpochSet(ser, epochs[a])
+//@   loop 1 invariant len(gsfaReaders) == len(epochNums) && 0 <= rangeidx1 && rangeidx1 <= len(epochs)
+//@   loop 1 invariant forall a int :: 0 <= a && a < len(epochs) ==> epochs[a] != nil && inEpochSet(ser, epochs[a])
+//@   loop 1 invariant forall a int :: 0 <= a && a < len(gsfaReaders) ==> gsfaReaders[a] != nil && readerOfSet(ser, gsfaReaders[a], epochNums[a])
+//@   loop 1 invariant forall a, b int :: 0 <= a && a < b && b < len(epochs) ==> epochs[a].epoch >= epochs[b].epoch
+//@   loop 1 invariant forall a, t int :: 0 <= a && a < len(epochNums) && rangeidx1 <= t && t < len(epochs) ==> epochNums[a] >= epochs[t].epoch
+//@   loop 1 invariant forall a, b int :: 0 <= a && a < b && b < len(epochNums) ==> epochNums[a] >= epochNums[b]
 
 //@ func (*MultiEpoch) getGsfaReadersInEpochDescendingOrderForSlotRange
 //@   requires held(ser.mu) == 0 && validEpochSet(ser)
 //@   ensures held(ser.mu) == 0
 //@   ensures len(result1) > 0 ==> result0 != nil
 //@   noframe
+//@   option sort-members-fwd
+//@   # C07: same order obligation as above. The readers handed to gsfa.NewGsfaReaderMultiepoch are the local gsfaReaders (the
+//@   # field GsfaReaderMultiepoch.epochs is not nameable from package main), pushed in the order of epochNums.
+//@   ensures forall k int :: 0 <= k && k < len(gsfaReaders) && k < len(result1) ==> gsfaReaders[k] != nil && readerOfSet(ser, gsfaReaders[k], result1[k])
+//@   ensures forall i, j int :: 0 <= i && i < j && j < len(result1) ==> result1[i] >= result1[j]
+//@   loop 0 invariant forall a int :: 0 <= a && a < len(epochs) ==> epochs[a] != nil && inEpochSet(ser, epochs[a])
+//@   loop 1 invariant len(gsfaReaders) == len(epochNums) && 0 <= rangeidx1 && rangeidx1 <= len(epochs)
+//@   loop 1 invariant forall a int :: 0 <= a && a < len(epochs) ==> epochs[a] != nil && inEpochSet(ser, epochs[a])
+//@   loop 1 invariant forall a int :: 0 <= a && a < len(gsfaReaders) ==> gsfaReaders[a] != nil && readerOfSet(ser, gsfaReaders[a], epochNums[a])
+//@   loop 1 invariant forall a, b int :: 0 <= a && a < b && b < len(epochs) ==> epochs[a].epoch >= epochs[b].epoch
+//@   loop 1 invariant forall a, t int :: 0 <= a && a < len(epochNums) && rangeidx1 <= t && t < len(epochs) ==> epochNums[a] >= epochs[t].epoch
+//@   loop 1 invariant forall a, b int :: 0 <= a && a < b && b < len(epochNums) ==> epochNums[a] >= epochNums[b]
 
 //@ func countTransactions
 //@   ensures result >= 0
@@ -247,6 +289,8 @@ package main
 
 //@ func getErr
 //@   noframe
+//@   # C19: the filter's "failed" atom is getErr(meta) != nil; pure = the result is a function of the meta value
+//@   pure
 
 //@ func getMemoInstructionDataFromTransaction
 //@   requires tx != nil
@@ -255,6 +299,8 @@ package main
 //@ func IsSimpleVoteTransaction
 //@   requires tx != nil
 //@   noframe
+//@   # C19: the filter's "vote" atom (isVoteTx is defined by IsVote, contracts_verif_c19.go)
+//@   ensures result == isVoteTx(*tx)
 
 //@ func rewardTypeToString
 
@@ -271,6 +317,7 @@ package main
 
 //@ func byteSlicesToKeySlice
 //@   ensures len(result) == len(keys)
+//@   pure
 //@   loop 0 invariant len(out) == rangeidx0
 //@   noframe
 
@@ -311,6 +358,10 @@ package main
 //@   requires held(multi.mu) == 0 && validEpochSet(multi) && multi.options != nil
 //@   ensures held(multi.mu) == 0
 //@   ensures result1 == nil ==> result0 != nil
+//@   # C03 pass-through: the slot handed to (*Epoch).GetBlock is the requested one and a block came back (K2 then gives
+//@   # uint64(block.Slot) == slot at that point). `result0.Slot == uint64(block.Slot) == slot` at the return is NOT stated: the
+//@   # errgroup.Go callbacks and uncontracted callees in between havoc every heap, so block.Slot is forgotten (times out).
+//@   ensures result0 != nil ==> slot == old(params.Slot) && block != nil
 //@   noframe
 
 //@ func (*MultiEpoch) GetTransaction
@@ -318,6 +369,10 @@ package main
 //@   requires held(multi.mu) == 0 && validEpochSet(multi) && multi.options != nil
 //@   ensures held(multi.mu) == 0
 //@   ensures result1 == nil ==> result0 != nil
+//@   # C03 pass-through: the node answered is the one (*Epoch).GetTransaction returned for the requested signature (K3)
+//@   # (stated on result0 != nil: the error returns are `nil, status.Errorf(..)`, whose error vcgo cannot know to be non-nil)
+//@   ensures result0 != nil ==> transactionNode != nil && (*transactionNode).Signature() == sig
+//@   ensures result0 != nil ==> result0.Slot == uint64(transactionNode.Slot)
 //@   noframe
 
 //@ func (*MultiEpoch) GetBlockTime
@@ -331,34 +386,158 @@ package main
 //@   requires params != nil && ser != nil
 //@   requires held(multi.mu) == 0 && validEpochSet(multi) && multi.options != nil
 //@   noframe
+//@   # C19 (S2): slot arithmetic does not wrap, the scan loop terminates (see contracts_verif_c19.go)
+//@   check overflow
+//@   loop 0 invariant startSlot <= slot
+//@   loop 0 decreases ite(slot <= endSlot, slotNum(endSlot - slot) + 1, 0)
+//@   # (S2) inside the scan loop only errors are returned, so `return nil` means the loop ran past endSlot; a NotFound
+//@   # slot leads to the next slot. Assumed: ctx.Err() is non-nil once ctx.Done() is closed.
+//@   loop 0 returns result != nil
+//@   fncall ctx.Err ensures result != nil
+//@   # (S1 for blocks) assumed: Context() is non-nil, Send writes nothing of the repository. PROVED at the send site: the
+//@   # message is the block GetBlock returned for the current slot, slot lies in [startSlot, endSlot], and the block passes
+//@   # the account filter (no filter / empty include list / blockContainsAccounts, which is a pure function here).
+//@   fncall ser.Context ensures result != nil
+//@   fncall ser.Send requires arg0 == block && startSlot <= slot && slot <= endSlot
+//@   fncall ser.Send requires params.Filter == nil || len(params.Filter.AccountInclude) == 0 || blockContainsAccounts(block, params.Filter.AccountInclude)
+//@   loop 0 invariant held(multi.mu) == 0 && validEpochSet(multi) && multi.options != nil
 
 //@ func (*MultiEpoch) StreamTransactions
 //@   requires params != nil && ser != nil
 //@   requires held(multi.mu) == 0 && validEpochSet(multi) && multi.options != nil
 //@   noframe
+//@   # C19 (S2): the default end of the range does not wrap
+//@   check overflow
+//@   # assumed: the stream's Context() is non-nil and writes nothing; context.WithTimeout returns a non-nil context and cancel func
+//@   fncall ser.Context ensures result != nil
+//@   fncall context.WithTimeout ensures result0 != nil && result1 != nil
 
 //@ func (*MultiEpoch) processSlotTransactions
 //@   requires ctx != nil && ser != nil
 //@   requires gsfaReadersLoaded ==> gsfaReader != nil
 //@   requires held(multi.mu) == 0 && validEpochSet(multi) && multi.options != nil
 //@   noframe
+//@   # C19 (S1, S2); vocabulary and explanation in contracts_verif_c19.go.
+//@   # The scan loop `for slot := startSlot; slot <= endSlot; slot++` terminates and stays inside the range only when endSlot
+//@   # is not MaxUint64 (otherwise slot wraps to 0): that is a precondition here and an obligation of StreamTransactions.
+//@   requires endSlot < 18446744073709551615
+//@   # Loops: 0/1 = account validation, 2 = scan over slots, 3 = transactions of a block, 4/5/6 = the Include / Exclude /
+//@   # Required loops of the inlined filterOutTxn closure, 7 = goroutine fan-out of the index path (bodies not verified).
+//@   # Assumed (fncall, trusted boundary): HasAccount is a function of the transaction value and the key string, with a
+//@   # possible error; Send writes nothing of the repository. PROVED at the scan send site (pre(fncall ser.Send)#0): the
+//@   # transaction being sent satisfies the property's predicate matchesTx(filter, *txn, meta).
+//@   check overflow
+//@   fncall tx.HasAccount ensures result1 == nil ==> result0 == hasAcc(tx, acc)
+//@   fncall solanatxmetaparsers.ParseAnyTransactionStatusMeta ensures true
+//@   fncall ser.Send#0 requires filter != nil ==> fVote(filter) || !isVoteTx(*txn)
+//@   fncall ser.Send#0 requires filter != nil ==> fFailed(filter) || getErr(meta) == nil
+//@   fncall ser.Send#0 requires filter != nil ==> inclOK(filter, *txn)
+//@   fncall ser.Send#0 requires filter != nil ==> exclOK(filter, *txn)
+//@   fncall ser.Send#0 requires filter != nil ==> reqOK(filter, *txn)
+//@   loop 2 invariant startSlot <= slot
+//@   loop 2 invariant held(multi.mu) == 0 && validEpochSet(multi) && multi.options != nil
+//@   loop 2 invariant filter == nil || len(filter.AccountInclude) == 0 || !gsfaReadersLoaded
+//@   loop 3 invariant held(multi.mu) == 0 && validEpochSet(multi) && multi.options != nil
+//@   loop 3 invariant filter == nil || len(filter.AccountInclude) == 0 || !gsfaReadersLoaded
+//@   loop 2 decreases ite(slot <= endSlot, slotNum(endSlot - slot) + 1, 0)
+//@   # (S2) inside the scan loop only errors are returned: `return nil` happens only after the loop ran past endSlot,
+//@   # in particular a slot without a block (NotFound) must lead to the next slot
+//@   loop 2 returns result != nil
+//@   # assumed for that: ctx.Err() is non-nil once ctx.Done() is closed; status.Errorf with a code other than OK is non-nil
+//@   fncall ctx.Err ensures result != nil
+//@   fncall status.Errorf ensures result != nil
+//@   loop 4 invariant tx == *txn
+//@   loop 4 invariant !hasOne && (forall k int :: 0 <= k && k < rangeidx4 ==> !hasAcc(tx, filter.AccountInclude[k]))
+//@   loop 5 invariant tx == *txn
+//@   loop 5 invariant forall k int :: 0 <= k && k < rangeidx5 ==> !hasAcc(tx, filter.AccountExclude[k])
+//@   loop 6 invariant tx == *txn
+//@   loop 6 invariant forall k int :: 0 <= k && k < rangeidx6 ==> hasAcc(tx, filter.AccountRequired[k])
 
 //@ func blockContainsAccounts
 //@   requires block != nil
 //@   noframe
+//@   # C19: the block filter of StreamBlocks; pure = a function of (block, accounts)
+//@   pure
+//@   # true iff some transaction of the block mentions one of the accounts (vocabulary: contracts_verif_c19.go).
+//@   # Loops: 0 = account set, 1 = transactions, 2 = static keys, 3 = loaded keys.
+//@   fncall solana.TransactionFromDecoder ensures result0 == decTx(tx) && (result1 == nil) == decOK(tx) && (result1 == nil ==> result0 != nil)
+//@   fncall solanatxmetaparsers.ParseTransactionStatusMetaContainer ensures result0 == metaOf(tx) && (result1 == nil) == metaOK(tx) && (result1 == nil ==> result0 != nil)
+//@   fncall meta.GetLoadedAccounts ensures result == loadedOf(meta)
+//@   fncall acc.String ensures result == keyStr(acc)
+//@   fncall key.String ensures result == keyStr(key)
+//@   ensures result <==> exists n int :: 0 <= n && n < len(block.Transactions) && txMentions(block.Transactions[n], accounts)
+//@   loop 0 invariant accountSet != nil && (forall s string :: has(accountSet, s) <==> exists j int :: 0 <= j && j < rangeidx0 && accounts[j] == s)
+//@   loop 1 invariant accountSet != nil && (forall s string :: has(accountSet, s) <==> inAccs(accounts, s))
+//@   loop 1 invariant forall n int :: 0 <= n && n < rangeidx1 ==> !txMentions(block.Transactions[n], accounts)
+//@   loop 2 invariant forall k int :: 0 <= k && k < rangeidx2 ==> !inAccs(accounts, keyStr(solTx.Message.AccountKeys[k]))
+//@   loop 3 invariant forall k int :: 0 <= k && k < rangeidx3 ==> !inAccs(accounts, keyStr(keys[k]))
 
 //@ spec func validTxBuffer(b *txBuffer) bool = b.items != nil && (forall s uint64 :: has(b.items, s) ==> b.items[s] != nil)
 
 //@ func newTxBuffer
 //@   ensures result != nil && validTxBuffer(result)
 //@   ensures result.startSlot == startSlot && result.endSlot == endSlot && result.currentSlot == startSlot
+//@   # C19 (S3): the buffer starts empty
+//@   ensures fresh(result) && bufRowsDistinct(result) && (forall s uint64 :: !has(result.items, s))
 
 //@ func (*txBuffer) add
 //@   requires held(b.mu) == 0 && validTxBuffer(b)
 //@   ensures held(b.mu) == 0 && validTxBuffer(b)
 //@   noframe
+//@   # C19 (S3): add stores tx under (slot, idx) and loses / changes no other buffered item (vocabulary: contracts_verif_c19.go)
+//@   requires bufRowsDistinct(b)
+//@   ensures bufRowsDistinct(b)
+//@   ensures bufHas(b, slot, idx) && b.items[slot][idx] == tx
+//@   ensures forall s uint64 :: s != slot ==> has(b.items, s) == old(has(b.items, s))
+//@   ensures forall s uint64, i uint64 :: (s != slot || i != idx) ==> bufHas(b, s, i) == old(bufHas(b, s, i))
+//@   ensures forall s uint64, i uint64 :: (s != slot || i != idx) && old(bufHas(b, s, i)) ==> b.items[s][i] == old(b.items[s][i])
+//@   ensures b.startSlot == old(b.startSlot) && b.endSlot == old(b.endSlot) && b.currentSlot == old(b.currentSlot)
 
 //@ func (*txBuffer) flush
 //@   requires ser != nil && held(b.mu) == 0 && validTxBuffer(b)
 //@   ensures held(b.mu) == 0
 //@   noframe
+//@   # C19 (S3). Loops: 0 = statistics, 1 = slots, 2 = key collection, 3 = sends of one slot.
+//@   # Assumed about the stream (fncall = trusted boundary): Send and Context write nothing of the repository; every Send
+//@   # moves the ghost counter written(ser) by one; Context() is non-nil; its Err() is non-nil once Done() is closed.
+//@   # What is PROVED at the send site (pre(fncall ser.Send)): the message is the item buffered under (currentSlot, idx),
+//@   # currentSlot lies in [startSlot, endSlot], and idx is not smaller than the previous idx sent for this slot (the keys of a
+//@   # map are distinct, so the order is strict; the strict form needs the sort model's distinctness lemma and times out).
+//@   requires b.startSlot <= b.currentSlot
+//@   # as for the scan loop: `for b.currentSlot <= b.endSlot { ...; b.currentSlot++ }` needs endSlot < MaxUint64 to terminate
+//@   requires b.endSlot < 18446744073709551615
+//@   option sort-members-fwd
+//@   option sort-no-distinct
+//@   fncall ser.Context ensures result != nil
+//@   fncall ser.Context().Done ensures true
+//@   fncall ser.Context().Err ensures result != nil
+//@   fncall ser.Send modifies written(ser)
+//@   fncall ser.Send ensures written(ser) == old(written(ser)) + 1
+//@   fncall ser.Send requires b.startSlot <= b.currentSlot && b.currentSlot <= b.endSlot
+//@   fncall ser.Send requires bufHas(b, b.currentSlot, idx) && arg0 == b.items[b.currentSlot][idx]
+//@   fncall ser.Send requires forall j int :: 0 <= j && j < rangeidx3 ==> indices[j] <= idx
+//@   ensures b.startSlot == old(b.startSlot) && b.endSlot == old(b.endSlot)
+//@   ensures result == nil ==> b.currentSlot > b.endSlot
+//@   ensures result == nil ==> forall s uint64 :: old(b.currentSlot) <= s && s <= b.endSlot ==> !has(b.items, s)
+//@   ensures forall s uint64, i uint64 :: s >= b.currentSlot ==> bufHas(b, s, i) == old(bufHas(b, s, i))
+//@   loop 1 invariant held(b.mu) == 2 && validTxBuffer(b)
+//@   loop 1 invariant b.startSlot == old(b.startSlot) && b.endSlot == old(b.endSlot) && old(b.currentSlot) <= b.currentSlot
+//@   loop 1 invariant forall s uint64 :: old(b.currentSlot) <= s && s < b.currentSlot ==> !has(b.items, s)
+//@   loop 1 invariant forall s uint64, i uint64 :: s >= b.currentSlot ==> bufHas(b, s, i) == old(bufHas(b, s, i))
+//@   loop 1 invariant forall s uint64, i uint64 :: s >= b.currentSlot && old(bufHas(b, s, i)) ==> b.items[s][i] == old(b.items[s][i])
+//@   loop 1 decreases ite(b.currentSlot <= b.endSlot, slotNum(b.endSlot - b.currentSlot) + 1, 0)
+//@   loop 2 invariant len(indices) <= cap(indices)
+//@   loop 2 invariant forall j int :: 0 <= j && j < len(indices) ==> has(txMap, indices[j])
+//@   # (that indices holds EVERY key of txMap, pairwise distinct, also proves -- invariants `visited2(indices[j])`,
+//@   #  `indices[j] != indices[k]`, `visited2(k) ==> exists j :: indices[j] == k` -- but those quantifiers make the later
+//@   #  obligations time out and no obligation below can use them: there is no way to state "every item was sent")
+//@   # the facts of loop 1 are repeated for the inner loop (cheaper for the solver than re-deriving the frame)
+//@   loop 3 invariant held(b.mu) == 2 && validTxBuffer(b)
+//@   loop 3 invariant b.startSlot == old(b.startSlot) && b.endSlot == old(b.endSlot) && old(b.currentSlot) <= b.currentSlot && b.currentSlot <= b.endSlot
+//@   loop 3 invariant forall s uint64 :: old(b.currentSlot) <= s && s < b.currentSlot ==> !has(b.items, s)
+//@   loop 3 invariant forall s uint64, i uint64 :: s >= b.currentSlot ==> bufHas(b, s, i) == old(bufHas(b, s, i))
+//@   loop 3 invariant forall s uint64, i uint64 :: s >= b.currentSlot && old(bufHas(b, s, i)) ==> b.items[s][i] == old(b.items[s][i])
+//@   loop 3 invariant has(b.items, b.currentSlot) && txMap == b.items[b.currentSlot]
+//@   loop 3 invariant forall j int :: 0 <= j && j < len(indices) ==> has(txMap, indices[j])
+//@   loop 3 invariant forall j int, k int :: 0 <= j && j < k && k < len(indices) ==> indices[j] <= indices[k]
+//@   loop 3 decreases len(indices) - rangeidx3
